@@ -141,9 +141,16 @@ def rule(fx, ck, name="R6.slot-index-domain", prefix=""):
         states = {}   # local of the shared-state aggregate -> (length domain, span)
         for bi, bl in enumerate(f.blocks):
             for s in bl["s"]:
-                if s[0] == "a" and s[2][0] == "agg" and s[2][1].get("k") == "adt" and "results" in (s[2][1].get("fields") or []):
-                    fields = s[2][1]["fields"]
-                    states[s[2][1].get("p")] = (length_domain(fx, f, s[2][2][fields.index("results")]), s[3])
+                if s[0] == "a" and s[2][0] == "agg" and s[2][1].get("k") == "adt" and "index" not in (s[2][1].get("fields") or []):
+                    # a shared state: an aggregate with a vector field (one slot per input: `results`, `input_order_ids`, ...)
+                    fields = s[2][1].get("fields") or []
+                    for fi, fname in enumerate(fields):
+                        o = s[2][2][fi] if fi < len(s[2][2]) else None
+                        if o is None or o[0] not in ("c", "m") or "Vec<" not in fx.tys(f.locals[o[1][0]]):
+                            continue
+                        ld = length_domain(fx, f, o)
+                        if fname == "results" or not (ld <= {"?", "pushes"}):
+                            states["%s.%s" % (s[2][1].get("p"), fname)] = (ld, s[3])
         if not states:
             continue
         for bi, bl in enumerate(f.blocks):
